@@ -308,6 +308,10 @@ RULES = {
     "R8": [(".split($C).collect()", ".vsplit_collect($C)")],
     # R10 (signature-only callees): `mut self` is a body-local binding mode, not part of the interface
     "R10": [("(mut self", "(self")],
+    # R4c: calling a fn-pointer field `(x.f)(a, b, c)` becomes the shim method call `x.f.call(a, b, c)`
+    "R4c": [("(self.format_for_stderr)(", "self.format_for_stderr.call("), ("(self.format_for_stdout)(", "self.format_for_stdout.call("),
+            ("(handle.format_function)(", "handle.format_function.call("), ("(self.format_function)(", "self.format_function.call("),
+            ("(format_function)(", "format_function.call(")],
     # R4: fn-pointer alias becomes an opaque shim
     "R4": [("FormatFunction", "VFormatFn")],
 }
